@@ -11,6 +11,8 @@ import Mahotas.Proofs.C07Float
 import Mathlib.Tactic.Linarith
 import Mathlib.Tactic.Positivity
 import Mathlib.Tactic.Push
+import Mathlib.Tactic.Ring
+import Mathlib.Tactic.FieldSimp
 
 set_option linter.unusedVariables false
 set_option linter.unusedSimpArgs false
@@ -95,5 +97,101 @@ where
       (gather m f fp p).length ≤ fp.length := by
     unfold gather
     exact List.length_filterMap_le _ _
+
+/-! ### forward error bound for arbitrary (rational) data: cancellation is possible, the bound is relative to the
+sum of the magnitudes -/
+
+/-- exact rational operations -/
+def exactMeanOps : MeanOps ℚ := ⟨0, (· + ·), (· / ·), fun n => (n : ℚ)⟩
+
+def absSumQ (xs : List ℚ) : ℚ := (xs.map fun x => |x|).sum
+
+theorem absSumQ_cons (x : ℚ) (xs : List ℚ) : absSumQ (x :: xs) = |x| + absSumQ xs := by
+  unfold absSumQ; simp
+
+theorem absSumQ_nonneg (xs : List ℚ) : 0 ≤ absSumQ xs := by
+  induction xs with
+  | nil => simp [absSumQ]
+  | cons x xs ih => rw [absSumQ_cons]; have := abs_nonneg x; linarith
+
+/-- recursive summation: after the additions of `xs`, the computed sum differs from the exact one by at most
+    `(c (1+u)^len − 1)` times the sum of the magnitudes, if it differed by at most `(c − 1) A` before -/
+theorem foldl_rnd_add_bound (rnd : ℚ → ℚ) (u : ℚ) (hu0 : 0 < u) (hrel : ∀ x : ℚ, |rnd x - x| ≤ |x| * u)
+    (xs : List ℚ) (S s A c : ℚ) (hc : 1 ≤ c) (hA : |S| ≤ A) (hE : |s - S| ≤ (c - 1) * A) :
+    |xs.foldl (fun a b => rnd (a + b)) s - xs.foldl (· + ·) S| ≤ (c * (1 + u) ^ xs.length - 1) * (A + absSumQ xs) ∧
+    |xs.foldl (· + ·) S| ≤ A + absSumQ xs := by
+  induction xs generalizing S s A c with
+  | nil => simp [absSumQ]; exact ⟨hE, hA⟩
+  | cons x xs ih =>
+    simp only [List.foldl_cons, List.length_cons]
+    have hA0 : 0 ≤ A := le_trans (abs_nonneg S) hA
+    have hx0 := abs_nonneg x
+    have hA' : |S + x| ≤ A + |x| := le_trans (abs_add_le S x) (by linarith)
+    have hsx : |s + x| ≤ c * (A + |x|) := by
+      have h1 : s + x = (S + x) + (s - S) := by ring
+      have h2 : |s + x| ≤ |S + x| + |s - S| := by rw [h1]; exact abs_add_le _ _
+      have h3 : (c - 1) * A ≤ (c - 1) * (A + |x|) := mul_le_mul_of_nonneg_left (by linarith) (by linarith)
+      nlinarith
+    have hE' : |rnd (s + x) - (S + x)| ≤ (c * (1 + u) - 1) * (A + |x|) := by
+      have h1 : rnd (s + x) - (S + x) = (rnd (s + x) - (s + x)) + (s - S) := by ring
+      have h2 : |rnd (s + x) - (S + x)| ≤ |rnd (s + x) - (s + x)| + |s - S| := by rw [h1]; exact abs_add_le _ _
+      have h3 := hrel (s + x)
+      have h4 : |s + x| * u ≤ c * (A + |x|) * u := mul_le_mul_of_nonneg_right hsx hu0.le
+      have h5 : (c - 1) * A ≤ (c - 1) * (A + |x|) := mul_le_mul_of_nonneg_left (by linarith) (by linarith)
+      nlinarith
+    have hc' : 1 ≤ c * (1 + u) := by nlinarith
+    have := ih (S + x) (rnd (s + x)) (A + |x|) (c * (1 + u)) hc' hA' hE'
+    rw [absSumQ_cons, pow_succ]
+    have e1 : c * ((1 + u) ^ xs.length * (1 + u)) = c * (1 + u) * (1 + u) ^ xs.length := by ring
+    have e2 : A + (|x| + absSumQ xs) = A + |x| + absSumQ xs := by ring
+    rw [e1, e2]
+    exact this
+
+/-- **Forward error bound of `mean_filter`** for a rounding with relative error at most `u` that converts the
+    sample count exactly: `|computed − exact mean| ≤ ((1+u)^(n+1) − 1) · (Σ|x|) / n`. -/
+theorem meanAtG_rat_bound_u (rnd : ℚ → ℚ) (u : ℚ) (hu0 : 0 < u) (hrel : ∀ x : ℚ, |rnd x - x| ≤ |x| * u)
+    (m : Mode) (f : Img ℚ) (fp : List (List Int)) (p : List Int)
+    (hn0 : 0 < (gatherG (0 : ℚ) m f fp p).length)
+    (hn : rnd ((gatherG (0 : ℚ) m f fp p).length : ℚ) = ((gatherG (0 : ℚ) m f fp p).length : ℚ)) :
+    |meanAtG (ratMeanOps rnd) m f fp p - meanAtG exactMeanOps m f fp p| ≤
+      ((1 + u) ^ ((gatherG (0 : ℚ) m f fp p).length + 1) - 1) * absSumQ (gatherG (0 : ℚ) m f fp p) /
+        ((gatherG (0 : ℚ) m f fp p).length : ℚ) := by
+  unfold meanAtG ratMeanOps exactMeanOps
+  simp only
+  set xs := gatherG (0 : ℚ) m f fp p with hxs
+  set n : ℚ := (xs.length : ℚ) with hnq
+  have hnpos : 0 < n := by rw [hnq]; exact_mod_cast hn0
+  rw [hn]
+  obtain ⟨hE, hS⟩ := foldl_rnd_add_bound rnd u hu0 hrel xs 0 0 0 1 (le_refl _) (by simp) (by simp)
+  simp only [zero_add, one_mul] at hE hS
+  set sh := xs.foldl (fun a b => rnd (a + b)) 0 with hsh
+  set S := xs.foldl (· + ·) (0 : ℚ) with hS_def
+  set A := absSumQ xs with hA_def
+  set c := (1 + u) ^ xs.length with hc_def
+  have hA0 : 0 ≤ A := absSumQ_nonneg xs
+  have hc1 : 1 ≤ c := one_le_pow₀ (by linarith)
+  -- |sh| ≤ c A
+  have hsh_abs : |sh| ≤ c * A := by
+    have h1 : sh = S + (sh - S) := by ring
+    have h2 : |sh| ≤ |S| + |sh - S| := by
+      have := abs_add_le S (sh - S)
+      rwa [← h1] at this
+    nlinarith
+  -- the division
+  have hdiv := hrel (sh / n)
+  have hq : |sh / n| = |sh| / n := by rw [abs_div, abs_of_pos hnpos]
+  have hsplit : rnd (sh / n) - S / n = (rnd (sh / n) - sh / n) + (sh - S) / n := by ring
+  have h3 : |rnd (sh / n) - S / n| ≤ |rnd (sh / n) - sh / n| + |(sh - S) / n| := by
+    rw [hsplit]; exact abs_add_le _ _
+  have h4 : |(sh - S) / n| = |sh - S| / n := by rw [abs_div, abs_of_pos hnpos]
+  rw [h4] at h3
+  rw [hq] at hdiv
+  have h5 : |sh| / n * u ≤ c * A / n * u := by
+    apply mul_le_mul_of_nonneg_right _ hu0.le
+    exact div_le_div_of_nonneg_right hsh_abs hnpos.le
+  have h6 : |sh - S| / n ≤ (c - 1) * A / n := div_le_div_of_nonneg_right hE hnpos.le
+  have h7 : c * A / n * u + (c - 1) * A / n = ((1 + u) ^ (xs.length + 1) - 1) * A / n := by
+    rw [pow_succ, ← hc_def]; field_simp; ring
+  linarith
 
 end Mahotas.C07
